@@ -283,7 +283,7 @@ PROP = Property(
         "per-class limit {-,0,1,2} x UNKNOWN cap {-,0,1,2}; a long-run stream uses max_attempts 33..130 with caps around 32/64 and "
         "blocks of one class separated by 30-40 failures of another; a 'reconfigured' stream edits max_attempts / "
         "max_unknown_attempts / per_class_max_attempts on a used policy object and compares the next call with a fresh object "
-        "built with the new values; an 'overlapping_calls' stream starts a second call while the first is in progress on the same "
+        "built with the new values, and a 'midflight' stream rebinds the caps while the call is backing off (a retry must respect the cap in force when it is granted); an 'overlapping_calls' stream starts a second call while the first is in progress on the same "
         "thread (nested inside the operation, sync and async, or as an interleaved coroutine under a generated schedule; same or "
         "different policy object) and requires each call to behave exactly as it does alone. Non-trivial = a call with >=2 classified failures that ends on a "
         "cap (global/per-class/UNKNOWN/non-retryable), or a reused-object call made after earlier calls left failures "
@@ -295,6 +295,7 @@ PROP = Property(
         Stream("small_scope", check, enum=enum_cases, quick=1, thorough=1, exhaustive=True),
         Stream("long_runs", check, strategy=long_run_case(), quick=1500, thorough=40000),
         Stream("overlapping_calls", check_overlap, strategy=overlap_case(), quick=4000, thorough=100000),
+        Stream("midflight", check, strategy=C.midflight_case(PROFILE, ["per_class", "max_unknown"], C.RECONF_ENTRIES), quick=3000, thorough=60000),
         Stream("reconfigured", lambda case: C.check_reconfigured(case, "C01"), strategy=C.reconfigured_case(PROFILE, ["max_attempts", "max_unknown", "per_class"]), quick=3000, thorough=60000),
     ],
 )
